@@ -24,9 +24,11 @@ def histories(rng, tier):
     for _ in range(60 if tier == "quick" else 400):
         n = rng.randint(0, 3)
         acts = [("raw", n, rand_small_state(rng, n)), ("dump",)]
+        if rng.random() < 0.4:
+            acts.insert(1, ("threads", rng.choice([2, 3, 4])))      # "... and threading models"
         tot = n
         for _ in range(rng.randint(1, 3)):
-            n2 = rng.randint(0, min(3, 7 - tot))
+            n2 = rng.randint(0, min(rng.choice([3, 3, 5]), 7 - tot))
             acts.append((rng.choice(["tensorr", "tensorl", "mulassign"]), n2, rand_small_state(rng, n2)))
             tot += n2
             acts += [("dump",), ("probs",)]
@@ -76,6 +78,9 @@ def oracle(acts, recs):
             else:
                 state = np.zeros(1 << a[1], dtype=complex); state[0] = 1
             n = a[1]
+        elif k == "threads":
+            if ri < len(recs) and recs[ri][0] == "t":
+                ri += 1
         elif k in ("dump", "probs", "sample", "polar", "vreglen"):
             if ri >= len(recs):
                 fails.append("missing record for %s" % k); break
